@@ -116,6 +116,35 @@ theorem fork_agree (c1 c2 : Cl) (T l1 l2 : List Ev) (nx1 nx2 : Nat)
   rw [hd1.g, hd2.g, hmp]
   exact childOfG_congr _ _ _ w2 b sw hk hp
 
+/-- the same for delivery lists that need not contain all of `T`, as long as the two clients were offered
+    the same SET of events: they end in the child of the MIP-03 minimum of that set -/
+theorem fork_agree_sameset (c1 c2 : Cl) (T l1 l2 : List Ev) (nx1 nx2 : Nat)
+    (h1 : AtFork c1 T) (h2 : AtFork c2 T) (hp : SameParent c1.g c2.g) (hmp : c1.maxPast = c2.maxPast)
+    (hl1 : ∀ e ∈ l1, e ∈ T) (hl2 : ∀ e ∈ l2, e ∈ T) (hset : ∀ e, e ∈ l1 ↔ e ∈ l2) (hne : l1 ≠ []) :
+    ∃ w, IsMin w l1 ∧
+      (run nx1 c1 l1).g.path = c1.g.path ++ [w.cipher] ∧
+      (run nx1 c1 l1).g.path = (run nx2 c2 l2).g.path ∧
+      wc (run nx1 c1 l1).g [] = wc (run nx2 c2 l2).g [] := by
+  have hn2 : l2 ≠ [] := by
+    obtain ⟨x, hx⟩ := List.exists_mem_of_ne_nil l1 hne
+    intro e; have := (hset x).mp hx; rw [e] at this; cases this
+  obtain ⟨w1, hw1, hm1, hd1⟩ := fork_level c1 T l1 nx1 h1 hl1 hne
+  obtain ⟨w2, hw2, hm2, hd2⟩ := fork_level c2 T l2 nx2 h2 hl2 hn2
+  have hmin1 : IsMin w1 l1 := ⟨hw1, hm1⟩
+  have hmin2 : IsMin w2 l1 := ⟨(hset w2).mpr hw2, fun e he => hm2 e ((hset e).mp he)⟩
+  have hw : w2 = w1 := isMin_unique hmin2 hmin1
+  subst hw
+  obtain ⟨b, sw, hk⟩ := hd1.com.kind
+  refine ⟨w2, hmin1, hd1.path, by rw [hd1.path, hd2.path, hp.path], ?_⟩
+  rw [hd1.g, hd2.g, hmp]
+  exact childOfG_congr _ _ _ w2 b sw hk hp
+
+/-- non-vacuity: only A and C were offered (B, the overall minimum, not yet): both clients are on C -/
+example : (run 0 b2 [eA, eC, eA]).g.path = (run 0 k1 [eC, eA]).g.path :=
+  let ⟨_, _, _, h, _⟩ := fork_agree_sameset b2 k1 T1 [eA, eC, eA] [eC, eA] 0 0 b2_atFork k1_atFork (by constructor <;> decide) rfl
+    (by decide) (by decide) (by intro e; simp [or_comm]) (by decide)
+  h
+
 /-- the corollaries the property text names: same epoch, same MLS state, same member set, same group data -/
 theorem fork_agree_data (c1 c2 : Cl) (T l1 l2 : List Ev) (nx1 nx2 : Nat)
     (h1 : AtFork c1 T) (h2 : AtFork c2 T) (hp : SameParent c1.g c2.g) (hmp : c1.maxPast = c2.maxPast)
